@@ -6,7 +6,7 @@ from . import _trunc
 from ..rules import must_precede, must_follow
 from ..cfg import cfg_of, always_raises
 from ..effects import MUTATING
-from ..astutil import pubnorm, dotted, get_arg, derived, norm, enclosing, names_in, defs_of
+from ..astutil import assignments, pubnorm, dotted, get_arg, derived, norm, enclosing, names_in, defs_of
 from ..srcmodel import own_nodes, AnalysisError
 from ._shared import raised_names
 from .C16 import d6_archive_copy
@@ -128,7 +128,8 @@ def chunk_generator_rules(ctx, cl_dtype, cl_empty):
     ys = [n for n in own_nodes(gen.node) if isinstance(n, ast.Yield)]
     src = gen.params[0]
     # dispatch branches are selected by path-condition evaluation, not by the layout of the if/elif chain
-    ARR = {f"hasattr({src}, '__next__')": False, f'isinstance({src}, Array)': True}
+    ARR = {f"hasattr({src}, '__next__')": False, f'isinstance({src}, Array)': True,
+           f"hasattr({src}, '__len__')": True, f"hasattr({src}, 'keys')": False}
     SEQ = {f"hasattr({src}, '__next__')": False, f'isinstance({src}, Array)': False,
            f"hasattr({src}, '__len__')": True, f"hasattr({src}, 'keys')": False}
     g_ = cfg_of(gen)
@@ -151,11 +152,6 @@ def chunk_generator_rules(ctx, cl_dtype, cl_empty):
         may = reach_under(gen, ft)
         frames = [n for n in own_nodes(gen.node) if isinstance(n, ast.Call) and frame_call_pred(n)]
         return any(g_.node_for(y) in may for y in ys) and not any(g_.node_for(n) in may for n in frames) and bool(frames)
-    handled = empty_ok(ARR, lambda n: isinstance(n.func, ast.Attribute) and n.func.attr in ('iterchunks', 'iterindices'))
-    ctx.decide(handled, 'R-BELIEF', cl_empty, gen, None, 'empty-array-source',
-               'the Array branch of the chunk generator handles a source of length 0 (its sequence sibling does, and '
-               'iterchunks rejects startindex >= endindex)',
-               detail='copying an Array whose first axis has length 0 raises ValueError')
     ff_ = ctx.repo.func('utils.fit_frames')
 
     def _frame_machinery(n):
@@ -163,6 +159,32 @@ def chunk_generator_rules(ctx, cl_dtype, cl_empty):
             return True
         # a frame generator of the package that itself obtains its counts from fit_frames
         return any(k == 'repo' and any(c2 is ff_ for _, c2 in ctx.E.callees(t)) for k, t in ctx.R.resolve_call(n, gen))
+    handled = empty_ok(ARR, lambda n: (isinstance(n.func, ast.Attribute) and n.func.attr in ('iterchunks', 'iterindices')) or
+                       _frame_machinery(n))
+    ctx.decide(handled, 'R-BELIEF', cl_empty, gen, None, 'empty-array-source',
+               'the Array branch of the chunk generator handles a source of length 0 (its sequence sibling does, and '
+               'iterchunks rejects startindex >= endindex)',
+               detail='copying an Array whose first axis has length 0 raises ValueError')
+    # an empty Darr array is *read* (`src[:]`, which opens it and returns an ndarray of the stored dtype and trailing
+    # shape): handing the handle itself to np.asarray makes NumPy treat it as an empty generic sequence -> float64, (0,)
+    env_ = dict(ARR)
+    for k_ in (f'len({src})', f'{src}.shape[0]'):
+        env_[k_] = 0
+    from ..pathcond import inline as _inl
+    # locals such as `totallen = len(array)` are folded through the environment of their definition
+    for nm_, v_, st_ in assignments(gen.node):
+        if norm(v_) in env_ and isinstance(nm_, str) and '.' not in nm_:
+            env_[nm_] = env_[norm(v_)]
+    may_ = reach_under(gen, _trunc.folder(env_, gen))
+    ys_empty_arr = [y for y in ys if g_.node_for(y) in may_]
+    bad_ = [y for y in ys_empty_arr if y.value is not None and not any(
+        isinstance(x, ast.Subscript) and isinstance(x.value, ast.Name) and x.value.id == src for x in ast.walk(_inl(gen, y.value)))
+        and any(isinstance(x, ast.Name) and x.id == src for x in ast.walk(_inl(gen, y.value)))]
+    if ys_empty_arr:
+        ctx.decide(not bad_, 'R-BELIEF', cl_empty, gen, bad_[0] if bad_ else ys_empty_arr[0], 'empty-array-is-read',
+                   'an empty Darr array source is read through indexing (`array[:]`) before it is converted',
+                   detail=f'`{norm(bad_[0].value)[:60]}` converts the Darr handle itself: NumPy sees an empty generic sequence and '
+                          f'the copy of an empty (0, k) array of type T becomes a float64 array of shape (0,)' if bad_ else '')
     seq_empty = empty_ok(SEQ, _frame_machinery)
     ctx.decide(seq_empty, 'R-BELIEF', cl_empty, gen, None, 'empty-sequence-source', 'the sequence branch handles length 0', detail='missing')
 
